@@ -2956,4 +2956,55 @@ def comp_redaxis(prop, tier, comp, work):
     return out
 
 
-RULES = {"R-FWD.array": comp_fwd_array, "R-FWD.functional": comp_fwd_functional, "R-UFUNC": comp_ufunc, "R-KSIB": comp_ksib, "R-SIMD": comp_simd, "R-CONSTBRANCH": comp_constbranch, "R-TRAITPROV": comp_traitprov, "R-MAYBE-DIV": comp_maybe_div, "R-OWN": comp_own, "R-EVAL": comp_eval, "R-EQSHAPE": comp_eqshape, "R-PAIR": comp_pair, "R-FOLD": comp_fold, "R-MEMCOPY": comp_memcopy, "R-AXISNORM": comp_axisnorm, "R-AXISNORM.simd": comp_axisnorm_simd, "R-UFWD.reduce": comp_ufwd_reduce, "R-PARAMUSE": comp_paramuse, "R-GETFN": comp_getfn, "R-MAYBE.broadcast": comp_maybe_bcast, "R-SIMDSIB": comp_simdsib, "R-EQLEN": comp_eqlen, "R-MAYBE.compare": comp_maybe_compare, "R-STICKYFAIL": comp_stickyfail, "R-SIMDATTR": comp_simdattr, "R-SIBWRITE": comp_sibwrite, "R-REDAXIS": comp_redaxis}
+# --------------------------------------------------------------------------------------------
+# R-EITHERSIB (C07 / C08 / C18): a function that dispatches on the active alternative of an either-typed operand calls the same
+# callee for the left and for the right alternative; the two calls must agree in every other argument (an eps, a keepdims, an
+# operand dropped or reordered in ONE alternative is a behaviour that depends on which alternative happens to be active).
+# --------------------------------------------------------------------------------------------
+_EITHERSIB_SCOPE = {
+    "C08": [("include/nmtools/array/view/ufunc.hpp", r"nmtools::view::reduce$")],
+    "C07": [("include/nmtools/array/view/ufunc.hpp", r"nmtools::view::(ufunc|unary_ufunc|binary_ufunc|broadcast_binary_ufunc)$")],
+    "C18": [("include/nmtools/utility/isequal.hpp", r"nmtools::utils::detail::isequal$"), ("include/nmtools/utility/isclose.hpp", r"nmtools::utils::detail::isclose$")],
+}
+_L_RE = re.compile(r"%(l_ptr|lptr|left)\b"); _R_RE = re.compile(r"%(r_ptr|rptr|right)\b")
+
+def rule_eithersib(rows, prop):
+    findings, n, samples = [], 0, []
+    for r in rows:
+        if "fn" not in r or r.get("lambda"):
+            continue
+        rf = relfile(r["file"])
+        if not any(rf == f_ and re.search(pat, r["fn"]) for f_, pat in _EITHERSIB_SCOPE.get(prop, [])):
+            continue
+        calls = [f for f in r["facts"] if f["k"] == "call"]
+        lefts = sorted(_L_RE.sub("%SIDE", f["b"]).replace(" ", "") for f in calls if re.search(r"\(\* ?%(l_ptr|lptr)\)", f["b"]))
+        rights = sorted(_R_RE.sub("%SIDE", f["b"]).replace(" ", "") for f in calls if re.search(r"\(\* ?%(r_ptr|rptr)\)", f["b"]))
+        if not lefts and not rights:
+            continue
+        n += max(len(lefts), len(rights))
+        from collections import Counter as _C
+        cl, cr = _C(lefts), _C(rights)
+        for k in (cl - cr):
+            findings.append(finding("R-EITHERSIB", prop, r, k[:160], "the call for the LEFT alternative of the either operand has no counterpart with the same arguments for the RIGHT alternative (right-hand calls: %s)" % sorted(cr - cl)[:3]))
+        for k in (cr - cl):
+            if not (cl - cr):
+                findings.append(finding("R-EITHERSIB", prop, r, k[:160], "the call for the RIGHT alternative of the either operand has no counterpart with the same arguments for the LEFT alternative"))
+        if len(samples) < 3:
+            samples.append("R-EITHERSIB %s: %s" % (r["fn"], lefts[:2]))
+    return findings, n, samples
+
+def comp_eithersib(prop, tier, comp, work):
+    t0 = time.time()
+    tu, nn = gen_umbrella(["nmtools/array/view", "nmtools/utility"], work, "umb_es.cpp")
+    rows, err, cmd = run_nmlint(tu, filters=["include/nmtools/array/view/ufunc.hpp", "include/nmtools/utility/isequal.hpp", "include/nmtools/utility/isclose.hpp"])
+    out = dict(broken=[], units=nn, functions=len(rows), cmd=cmd)
+    if err:
+        out["broken"].append(err); return out
+    f, inst, samples = rule_eithersib(rows, prop)
+    if inst == 0:
+        out["broken"].append("R-EITHERSIB: no either-dispatching function found in scope for %s (anchor vanished)" % prop)
+    out.update(findings=f, instances={"R-EITHERSIB": inst}, evaluations=inst, distinct_nontrivial=inst - len(f), samples=samples, wall_s=round(time.time() - t0, 2))
+    return out
+
+
+RULES = {"R-FWD.array": comp_fwd_array, "R-FWD.functional": comp_fwd_functional, "R-UFUNC": comp_ufunc, "R-KSIB": comp_ksib, "R-SIMD": comp_simd, "R-CONSTBRANCH": comp_constbranch, "R-TRAITPROV": comp_traitprov, "R-MAYBE-DIV": comp_maybe_div, "R-OWN": comp_own, "R-EVAL": comp_eval, "R-EQSHAPE": comp_eqshape, "R-PAIR": comp_pair, "R-FOLD": comp_fold, "R-MEMCOPY": comp_memcopy, "R-AXISNORM": comp_axisnorm, "R-AXISNORM.simd": comp_axisnorm_simd, "R-UFWD.reduce": comp_ufwd_reduce, "R-PARAMUSE": comp_paramuse, "R-GETFN": comp_getfn, "R-MAYBE.broadcast": comp_maybe_bcast, "R-SIMDSIB": comp_simdsib, "R-EQLEN": comp_eqlen, "R-MAYBE.compare": comp_maybe_compare, "R-STICKYFAIL": comp_stickyfail, "R-SIMDATTR": comp_simdattr, "R-SIBWRITE": comp_sibwrite, "R-REDAXIS": comp_redaxis, "R-EITHERSIB": comp_eithersib}
